@@ -49,11 +49,13 @@ pub enum Pipe {
   DelayTick,
   /// last(): the item and the completion both travel inside the source's terminal
   Last,
+  /// debounce with an empty window: the timer task can run as soon as it is scheduled, i.e. while next() is still running
+  DebounceZero,
 }
 
 pub const MOVE_PIPES: &[Pipe] = &[Pipe::ObserveOnTick, Pipe::DelayTick];
 
-pub const RATE_PIPES: &[Pipe] = &[Pipe::BufferTime, Pipe::BufferCountTime, Pipe::SampleTick, Pipe::ThrottleAll, Pipe::ThrottleLead, Pipe::ThrottleTailTick, Pipe::DebounceTick];
+pub const RATE_PIPES: &[Pipe] = &[Pipe::BufferTime, Pipe::BufferCountTime, Pipe::SampleTick, Pipe::ThrottleAll, Pipe::ThrottleLead, Pipe::ThrottleTailTick, Pipe::DebounceTick, Pipe::DebounceZero];
 
 thread_local! {
   /// source events in the order in which the feeding calls completed
@@ -130,7 +132,7 @@ fn generic_rate_ok(p: Pipe, got: &[Ev], emitted: &[(usize, Ev)], cut: bool) -> b
   }
   if !cut && matches!(src_term, Some(Ev::Complete)) && matches!(out_term, Some(Ev::Complete)) {
     let all = matches!(p, Pipe::BufferTime | Pipe::BufferCountTime | Pipe::ObserveOnTick | Pipe::DelayTick);
-    let last = matches!(p, Pipe::DebounceTick | Pipe::ThrottleTailTick | Pipe::ThrottleAll);
+    let last = matches!(p, Pipe::DebounceTick | Pipe::DebounceZero | Pipe::ThrottleTailTick | Pipe::ThrottleAll);
     if all && used.len() != src_items.len() {
       return false;
     }
@@ -331,7 +333,7 @@ pub fn build(p: Pipe) -> Rig {
       keep!(cat::hot_tagged_t(0).debounce(world::units(1), world::any_sched()).actual_subscribe(probe));
       Rig { feed: feed_tags(vec![0]), ninputs: 1, unsub, subscribe: None, probes: vec![probe], drain: sched_drain, peek: None, extra: vec![] }
     }
-    Pipe::BufferTime | Pipe::BufferCountTime | Pipe::SampleTick | Pipe::ThrottleAll | Pipe::ThrottleLead | Pipe::ThrottleTailTick | Pipe::DebounceTick | Pipe::ObserveOnTick | Pipe::DelayTick => {
+    Pipe::BufferTime | Pipe::BufferCountTime | Pipe::SampleTick | Pipe::ThrottleAll | Pipe::ThrottleLead | Pipe::ThrottleTailTick | Pipe::DebounceTick | Pipe::DebounceZero | Pipe::ObserveOnTick | Pipe::DelayTick => {
       let sd = world::any_sched();
       let src = cat::hot_tagged_t(0);
       match p {
@@ -339,6 +341,7 @@ pub fn build(p: Pipe) -> Rig {
         Pipe::BufferCountTime => keep!(src.buffer_with_count_and_time(2, world::units(1), sd).map(|v: Vec<Val>| Val::L(v)).actual_subscribe(probe)),
         Pipe::SampleTick => keep!(src.sample_threads(observable::interval(world::units(1), sd).map(|n: usize| Val::c(n as i64)).on_error_map(|_: std::convert::Infallible| Val::c(0))).actual_subscribe(probe)),
         Pipe::DebounceTick => keep!(src.debounce(world::units(1), sd).actual_subscribe(probe)),
+        Pipe::DebounceZero => keep!(src.debounce(world::units(0), sd).actual_subscribe(probe)),
         Pipe::ObserveOnTick => keep!(src.observe_on_threads(sd).actual_subscribe(probe)),
         Pipe::DelayTick => keep!(src.delay_threads(world::units(1), sd).actual_subscribe(probe)),
         Pipe::ThrottleLead => keep!(src.throttle(|_v: &Val| world::units(1), rxrust::ops::throttle::ThrottleEdge::leading(), sd).actual_subscribe(probe)),
@@ -606,13 +609,23 @@ fn make_closure(rig: &Rig, op: TOp, late: Rc<RefCell<Vec<Probe>>>, key_after_uns
   let first = rig.probes[0];
   let extras: Vec<Rc<dyn Fn()>> = rig.extra.iter().map(|x| x.1.clone()).collect();
   let closed_q = CLOSED_Q.with(|q| q.borrow().clone());
-  let all_probes = rig.probes.clone();
-  Box::new(move || match op {
+  Box::new(move || {
+    let kind = match &op {
+      TOp::Feed(_, Ev::Next(_)) => 1,
+      TOp::Extra(_) => 2,
+      _ => 0,
+    };
+    world::with_op_kind(kind, || run_op(op, &feed, &unsub, &subscribe, first, &extras, &closed_q, &late, key_after_unsub));
+  })
+}
+
+#[allow(clippy::too_many_arguments)]
+fn run_op(op: TOp, feed: &Rc<dyn Fn(usize, &Ev)>, unsub: &Rc<RefCell<Option<Box<dyn FnOnce()>>>>, subscribe: &Option<Rc<dyn Fn(Probe)>>, first: Probe, extras: &[Rc<dyn Fn()>], closed_q: &Option<Rc<dyn Fn() -> Option<bool>>>, late: &Rc<RefCell<Vec<Probe>>>, key_after_unsub: &'static str) {
+  match op {
     TOp::IsClosed => {
       if let Some(q) = &closed_q {
         if q() == Some(true) {
           e::note("  is_closed() -> true".to_string());
-          let _ = &all_probes;
           first.forbid("delivery-after-is_closed/threads");
         }
       }
@@ -640,7 +653,7 @@ fn make_closure(rig: &Rig, op: TOp, late: Rc<RefCell<Vec<Probe>>>, key_after_uns
         s(p);
       }
     }
-  })
+  }
 }
 
 /// Two logical threads, `nops` operations each, nested pre-emption at every lock
@@ -672,6 +685,12 @@ fn c10_preempt_x(pipes: &[Pipe], nops: usize, max_preempt: u32, sample_closed: b
     }
   }
   e::note(format!("{:?}_threads ; {}", p, desc.join(" | ")));
+  if MOVE_PIPES.contains(&p) || matches!(p, Pipe::ObserveOn | Pipe::Delay) {
+    world::DECOUPLED.with(|d| d.set(true));
+    if world::DEADLOCK_CTX.with(|c| c.borrow().is_empty()) {
+      world::set_deadlock_ctx(&format!("/{:?}", p));
+    }
+  }
   let with_query = script.iter().flatten().any(|o| matches!(o, TOp::IsClosed));
   if with_query {
     world::set_deadlock_ctx(&format!("/{:?}+is_closed", p));
@@ -718,6 +737,26 @@ fn c10_preempt_x(pipes: &[Pipe], nops: usize, max_preempt: u32, sample_closed: b
     let cut = script.iter().flatten().any(|o| matches!(o, TOp::Unsub));
     if single && fed_terminal && !cut && !rig.probes[0].terminated() {
       e::fail(&format!("terminal-lost/{:?}", p), || format!("the source terminated and nobody unsubscribed, yet after draining every scheduled task the subscriber has seen [{}]", model::show_events(&rig.probes[0].events())));
+    }
+  }
+  // debounce owes the subscriber the last item whenever the source then stays quiet: after the drain (clock far
+  // beyond every window, every task polled) it must have arrived, completion or not
+  if matches!(p, Pipe::DebounceTick | Pipe::DebounceZero | Pipe::Debounce) {
+    let cut = script.iter().flatten().any(|o| matches!(o, TOp::Unsub));
+    let failed = script.iter().flatten().any(|o| matches!(o, TOp::Feed(_, Ev::Err(_))));
+    let emitted: Vec<(usize, Ev)> = EMITTED.with(|x| x.borrow().clone());
+    let last_item = emitted.iter().take_while(|(_, e)| matches!(e, Ev::Next(_))).filter_map(|(_, e)| if let Ev::Next(v) = e { Some(v.clone()) } else { None }).last();
+    if let (false, false, Some(v)) = (cut, failed, last_item) {
+      let got = rig.probes[0].events();
+      let mut any = crate::val::ff();
+      for g in &got {
+        if let Ev::Next(x) = g {
+          any = crate::val::b_or(any, x.eq_t(&v));
+        }
+      }
+      if !e::valid(any) {
+        e::fail(&format!("last-item-withheld/{:?}", p), || format!("the source's last item {} was followed by silence, yet after every window has elapsed the subscriber has seen [{}]", v.show(), model::show_events(&got)));
+      }
     }
   }
   if p == Pipe::Finalize {
@@ -824,7 +863,9 @@ fn c10_preempt_x(pipes: &[Pipe], nops: usize, max_preempt: u32, sample_closed: b
         break;
       }
     }
-    if !ok && nops >= 3 && (RATE_PIPES.contains(&p) || MOVE_PIPES.contains(&p)) {
+    // (debounce's timer task reads the *latest* value: when it fires during a next() call it hands out the newer
+    // item at once, which no serial order of whole calls does; nothing is lost or duplicated, see generic_rate_ok)
+    if !ok && ((nops >= 3 && (RATE_PIPES.contains(&p) || MOVE_PIPES.contains(&p))) || matches!(p, Pipe::DebounceZero | Pipe::DebounceTick)) {
       ok = generic_rate_ok(p, &got[0], &emitted_concurrent, unsub_tick > 0);
       if ok {
         e::cover("accepted-by-the-order-insensitive-rules-only");
